@@ -64,25 +64,26 @@ type ViolOut struct {
 }
 
 type Out struct {
-	Property   string            `json:"property"`
-	Profile    string            `json:"profile"`
-	Runs       int               `json:"runs"`
-	Steps      int64             `json:"steps"`
-	SimNanos   int64             `json:"sim_ns"`
-	Faults     map[string]int    `json:"faults"`
-	FaultsConf map[string]int    `json:"faults_conf"`
-	Hooks      map[string]int    `json:"hooks"`
-	Probes     map[string]int    `json:"probes"`
-	Cells      []string          `json:"cells"`
-	Sigs       []string          `json:"sigs"`
-	NonTrivial int               `json:"nontrivial_runs"`
-	Samples    []any             `json:"samples"`
-	Violations []ViolOut         `json:"violations"`
-	Leaked     int               `json:"leaked"`
-	HarnessErr string            `json:"harness_err,omitempty"`
-	WallS      float64           `json:"wall_s"`
-	WallCapHit bool              `json:"wall_cap_hit"`
-	Hashes     map[string]string `json:"hashes,omitempty"`
+	Property      string            `json:"property"`
+	Profile       string            `json:"profile"`
+	Runs          int               `json:"runs"`
+	Steps         int64             `json:"steps"`
+	SimNanos      int64             `json:"sim_ns"`
+	Faults        map[string]int    `json:"faults"`
+	FaultsConf    map[string]int    `json:"faults_conf"`
+	Hooks         map[string]int    `json:"hooks"`
+	Probes        map[string]int    `json:"probes"`
+	Cells         []string          `json:"cells"`
+	Sigs          []string          `json:"sigs"`
+	SigsTruncated bool              `json:"sigs_truncated,omitempty"`
+	NonTrivial    int               `json:"nontrivial_runs"`
+	Samples       []any             `json:"samples"`
+	Violations    []ViolOut         `json:"violations"`
+	Leaked        int               `json:"leaked"`
+	HarnessErr    string            `json:"harness_err,omitempty"`
+	WallS         float64           `json:"wall_s"`
+	WallCapHit    bool              `json:"wall_cap_hit"`
+	Hashes        map[string]string `json:"hashes,omitempty"`
 	// replay mode
 	Reproduced bool                `json:"reproduced"`
 	LogHash    string              `json:"log_hash,omitempty"`
@@ -323,6 +324,11 @@ func workerBatch(t *testing.T, job *Job) {
 		out.Sigs = append(out.Sigs, fmt.Sprintf("%016x", k))
 	}
 	sort.Strings(out.Sigs)
+	if len(out.Sigs) > 150000 {
+		// very large batches: report a lower bound of the distinct count
+		out.Sigs = out.Sigs[:150000]
+		out.SigsTruncated = true
+	}
 	out.WallS = time.Since(t0).Seconds()
 	writeJSON(job.Out, out)
 }
